@@ -207,6 +207,14 @@ int vh_prop(void)
 	LIB(rc = vnaproperty_import_yaml_from_string(&reg[r], d, vh_error_fn, NULL));
 	if (rc == -1) vh_out("fail %s cb=%d/%d", vh_errclass(errno), vh_cb_errors, vh_cb_warnings);
 	else vh_out("ok cb=%d/%d", vh_cb_errors, vh_cb_warnings);
+    } else if (strcmp(op, "importf") == 0 && d) {	/* the same through vnaproperty_import_yaml_from_file */
+	int rc;
+	FILE *fp = fmemopen((void *)d, strlen(d), "r");
+	if (fp == NULL) return -1;
+	LIB(rc = vnaproperty_import_yaml_from_file(&reg[r], fp, "-", vh_error_fn, NULL));
+	fclose(fp);
+	if (rc == -1) vh_out("fail %s cb=%d/%d", vh_errclass(errno), vh_cb_errors, vh_cb_warnings);
+	else vh_out("ok cb=%d/%d", vh_cb_errors, vh_cb_warnings);
     } else if (strcmp(op, "yamltree") == 0 && d) {
 	yaml_parser_t parser;
 	yaml_document_t doc;
